@@ -1,4 +1,5 @@
 """C08 -- ill-nested constructs and unbalanced parentheses are never accepted."""
+import re
 import common
 import gen
 import pool
@@ -156,6 +157,16 @@ def mutants(stmts, rng, quick):
     return out
 
 
+HEADERS = ["function f(x) bind(c) result(r)\nf = x\nend function f\n", "function f(x) result(r) bind(c)\nr = x\nend function f\n",
+           "function f(x) bind(c, name = 'q') result(r)\nr = x\nend function f\n", "subroutine s(a, b) bind(c)\nend subroutine s\n",
+           "subroutine s(a) bind(c, name = 'q')\nend subroutine s\n", "integer(kind = 4) function f(x) result(r)\nr = x\nend function f\n",
+           "character(len = 3) function f()\nf = 'a'\nend function f\n", "pure real(8) function f(x)\nf = x\nend function f\n",
+           "recursive function f(x) result(r)\nr = x\nend function f\n", "subroutine s()\nend subroutine s\n",
+           "function f()\nf = 1\nend function f\n", "subroutine s(*, a)\nend subroutine s\n",
+           "submodule (m) sm\nend submodule sm\n", "submodule (m:p) sm\nend submodule sm\n",
+           "module procedure mp\nend procedure mp\n"]
+
+
 def with_comments(src):
     """the same source with a full-line comment in front of every line"""
     out = []
@@ -185,6 +196,23 @@ def run(ctx):
         st, _ = gen.gen_program(ctx.seed * 7 + k, std, size=0.7 if ctx.quick else 1.0)
         for sig, desc, m in mutants(st, ctx.rng, ctx.quick):
             cases.append((sig, desc, std, gen.render(m)))
+    # catalogue: EVERY parenthesis of every entry (less usual statement forms, unit headers with both optional
+    # suffix clauses) deleted and doubled; an entry takes part when it parses intact
+    import catalogue
+    ncat = 0
+    cat = [(b, w) for k, b in enumerate(catalogue.BODIES) for w in [catalogue.WRAPS[k % 3]]] + [(None, h) for h in HEADERS]
+    for k, (b, w) in enumerate(cat):
+        std = ("f2003", "f2008")[k % 2]
+        text = b if b is not None else w.split("\n")[0]
+        frame = w if b is not None else "%s\n" + w.split("\n", 1)[1]
+        if check_one((std, frame % text, False)) != "tree":
+            continue
+        pos = [p for p in outside_literal_positions(text) if text[p] in "()"]
+        first = re.sub(r"\W+", "_", text.lower()).strip("_")[:28]
+        for p in pos:
+            for what, t in (("delete_paren", text[:p] + text[p + 1:]), ("double_paren", text[:p] + text[p] + text[p:])):
+                ncat += 1
+                cases.append(("%s:cat:%s" % (what, first), "%r -> %r" % (text, t), std, frame % t))
     # ---- Leg C: model vs implementation on a sample of the structural mutants (not the paren ones:
     #      parentheses are inside statements, i.e. leaf-oracle territory)
     structural = [c for c in cases if not c[0].startswith(("delete_paren", "double_paren"))]
@@ -207,10 +235,11 @@ def run(ctx):
                              dict(std=std, source=with_comments(src) if keep else src, keep_comments=keep,
                                   mutation=desc, expected="an exception", observed=kind)))
     e2e = dict(cases=len(jobs), distinct=len(set(c[3] for c in cases)), failures=failures,
-               mutation_histogram=hist, programs=nprog,
+               mutation_histogram=hist, programs=nprog, catalogue_paren_mutants=ncat,
                rule="for each generated valid program every single structural edit (delete an opener or END of an "
                     "inner construct, duplicate one, wrong/missing/surplus END name) and one parenthesis deletion and "
-                    "one doubling per statement; edits that provably leave a valid program are excluded by construct "
+                    "one doubling per statement; every parenthesis of every entry of the statement catalogue and of 15 unit headers "
+                    "(both suffix clauses in both orders) deleted and doubled; edits that provably leave a valid program are excluded by construct "
                     "kind; every mutant must raise; distinct = distinct mutated sources",
                samples=[dict(mutation=cases[len(cases) // 3][1], std=cases[len(cases) // 3][2])] if cases else [])
     return common.finish(ctx, proof, corr, e2e, extra_assumptions=[
